@@ -317,10 +317,16 @@ def stitched_listing_order(ctx, n):
         hunk = ctx.rng.choice([0, 0, 1])
         kind = ctx.rng.choice(["trunc0", "garbage", "trunchalf"])
         crash = ctx.rng.randrange(8, 40)
+        dirs = [p_ for p_, n_ in gen.tree_paths(t0) if n_["k"] == "d" and p_ != "/"]
+        sub = ctx.rng.choice(dirs) if dirs else "/f03"
+        excl = [ctx.rng.choice(["*1", "*[02468]", "f0?", "a*", "*.b", "?"])]
+        if t % 4 >= 2:
+            kind = "none"                      # no damage: filtered listings of a plain interrupted version
         steps = [{"op": "init"}, {"op": "mktree", "path": "src", "tree": t0}, {"op": "backup", "opts": {"meph": m0, "mbs": 64, "sfc": 4}},
                  {"op": "mktree", "path": "src", "tree": t1}, {"op": "backup", "opts": {"meph": m1, "mbs": 64, "sfc": 4}, "plan": {"crash": crash}},
                  {"op": "damage", "file": "b0000/i/00000/%09d" % hunk, "kind": kind},
-                 {"op": "list", "band": 1}, {"op": "list", "band": 1, "subtree": "/"}, {"op": "versions"}]
+                 {"op": "list", "band": 1}, {"op": "list", "band": 1, "subtree": sub}, {"op": "list", "band": 1, "excludes": excl},
+                 {"op": "versions"}]
         cases.append({"id": f"s{t}", "steps": steps, "hunk": hunk, "kind": kind})
     res = ctx.cvh_run(cases)
     for c in cases:
@@ -330,16 +336,23 @@ def stitched_listing_order(ctx, n):
             ctx.oracle_fail("listing/harness-died", "harness died or hung on a stitched-listing case", {"steps": c["steps"]})
             continue
         lst = r[6]
-        if lst.get("panic"):
-            ctx.oracle_fail("listing/panic", f"listing panicked: {lst['panic'][:200]}", {"steps": c["steps"]})
+        pan = [x["panic"] for x in r[6:9] if isinstance(x, dict) and x.get("panic")]
+        if pan:
+            ctx.oracle_fail("listing/panic", f"listing panicked: {pan[0][:200]}", {"steps": c["steps"]})
             continue
         if lst.get("result") != "ok":
             continue        # the interrupted backup died before it had a version to list
         lp = [e["apath"] for e in lst["value"]]
-        bad = strictly_increasing(lp)
+        bad = None
+        for what, one in (("whole", lst), ("under " + repr(c["steps"][7].get("subtree")), r[7]), ("with exclusions " + repr(c["steps"][8].get("excludes")), r[8])):
+            if one.get("result") == "ok":
+                b2 = strictly_increasing([e["apath"] for e in one["value"]])
+                if b2:
+                    bad = (what, b2)
+                    break
         if bad:
-            ctx.oracle_fail("listing/stitched-order", f"the listing of the interrupted version is not strictly increasing at {bad} "
-                                                     f"(older hunk {c['hunk']} made unreadable by {c['kind']})", {"steps": c["steps"]})
+            ctx.oracle_fail("listing/stitched-order", f"the listing ({bad[0]}) of the interrupted version is not strictly increasing at {bad[1]} "
+                                                     f"(older hunk {c['hunk']}: {c['kind']})", {"steps": c["steps"]})
             continue
         ctx.dist("stitched_listings_with_unreadable_older_hunk", 1)
         if len(lp) > 3:
